@@ -132,7 +132,16 @@ pub fn cmd_writer(out: &str, seed: u64, thorough: bool) {
                 iters.push(format!("{{\"chunks\":{},\"out\":{}}}", jchunks(c), jb(&o)));
             }
             let mut wraps = vec![];
-            for &w in &widths {
+            // also widths at and just above the sequence length, and near usize::MAX ("do not wrap"); logged clamped to 2^31-1
+            let mut ws: Vec<usize> = widths.clone();
+            for w in [seq.len(), seq.len() + 1, 1usize << 31, usize::MAX, usize::MAX - 1, usize::MAX - seq.len(), (usize::MAX - seq.len()).saturating_add(1)] {
+                if w > 0 && !ws.contains(&w) {
+                    ws.push(w);
+                }
+            }
+            for &w in &ws {
+                let wlog = w.min(i32::MAX as usize);
+                let r = std::panic::catch_unwind(std::panic::AssertUnwindSafe(|| {
                 let mut o1 = vec![];
                 fasta::write_wrap(&mut o1, &id, desc.as_deref(), seq, w).unwrap();
                 let mut o2 = vec![];
@@ -155,7 +164,12 @@ pub fn cmd_writer(out: &str, seed: u64, thorough: bool) {
                 fasta::write_head(&mut sk, head).unwrap();
                 fasta::write_wrap_seq_iter(&mut sk, chs[chs.len() / 2].iter().map(|x| &x[..]), w).unwrap();
                 let s4 = std::mem::take(&mut sk.0);
-                wraps.push(format!("{{\"w\":{},\"write_wrap\":{},\"head_wrap_seq\":{},\"owned_wrap\":{},\"short_write_wrap\":{},\"short_owned_wrap\":{},\"short_iter\":{},\"iters\":[{}]}}", w, jb(&o1), jb(&o2), jb(&o3), jb(&s1), jb(&s3), jb(&s4), wi.join(",")));
+                format!("{{\"w\":{},\"panic\":false,\"write_wrap\":{},\"head_wrap_seq\":{},\"owned_wrap\":{},\"short_write_wrap\":{},\"short_owned_wrap\":{},\"short_iter\":{},\"iters\":[{}]}}", wlog, jb(&o1), jb(&o2), jb(&o3), jb(&s1), jb(&s3), jb(&s4), wi.join(","))
+                }));
+                match r {
+                    Ok(t) => wraps.push(t),
+                    Err(_) => wraps.push(format!("{{\"w\":{},\"panic\":true,\"write_wrap\":[],\"head_wrap_seq\":[],\"owned_wrap\":[],\"short_write_wrap\":[],\"short_owned_wrap\":[],\"short_iter\":[],\"iters\":[]}}", wlog)),
+                }
             }
             writeln!(
                 f,
